@@ -28,6 +28,7 @@ type Engine struct {
 	natives    map[string]func(x *Exec, args []Value) Value
 	nativeFns  map[string]reflect.Value
 	denyPkgs   map[string]bool
+	allowFns   map[string]bool
 
 	mu        sync.Mutex
 	globals   map[*ssa.Global]*Cell
@@ -75,7 +76,7 @@ func loadEngine(repo, pkgPath string, overlay map[string][]byte) (*Engine, error
 		intrinsics: map[string]intrinsicFn{}, natives: map[string]func(*Exec, []Value) Value{},
 		nativeFns: map[string]reflect.Value{}, globals: map[*ssa.Global]*Cell{}, pkgInit: map[*ssa.Package]string{},
 		maxSteps: 400000, maxDepth: 80, known: map[string]bool{}, params: map[string]int{}, timeout: 10000,
-		denyPkgs: map[string]bool{}}
+		denyPkgs: map[string]bool{}, allowFns: map[string]bool{}}
 	for _, p := range []string{"reflect", "encoding/json", "text/template", "os", "net", "runtime", "syscall",
 		"sync", "sync/atomic", "log", "unsafe", "internal/bytealg", "io/ioutil", "os/exec", "time", "internal/reflectlite",
 		"html/template", "go/format", "github.com/go-openapi/swag", "golang.org/x/tools/imports", "gopkg.in/yaml.v3", "encoding/gob", "math/rand"} {
@@ -83,10 +84,14 @@ func loadEngine(repo, pkgPath string, overlay map[string][]byte) (*Engine, error
 	}
 	registerIntrinsics(e)
 	registerNatives(e)
+	registerVFS(e)
 	return e, nil
 }
 
 func (e *Engine) denied(fn *ssa.Function) bool {
+	if e.allowFns[fn.String()] {
+		return false
+	}
 	if fn.Pkg == nil {
 		if fn.Origin() != nil && fn.Origin().Pkg != nil {
 			return e.denyPkgs[fn.Origin().Pkg.Pkg.Path()]
